@@ -350,6 +350,7 @@ def replay_omega(case):
     spell = spellings(case)
     allids = [k for k in sorted(spell) if spell[k] is not None]
     steps = [{"edit": {"op": "Empty"}, "expect": case["read"], "untouched": [list(k) for k in allids], "feat": {}}] + case["steps"]
+    respelled: set = set()
     for idx, s in enumerate(steps):
         e = s["edit"]
         stepinfo = dict(s["feat"], index=idx, op=e["op"])
@@ -390,9 +391,10 @@ def replay_omega(case):
         if why and not failed:
             bad(stepinfo, "meaning_mismatch", f"in-memory random variables differ from the specification: {why}", code=code)
             failed = True
-        want = [spell[tuple(i)] for i in s["untouched"] if spell.get(tuple(i)) is not None]
+        want = [spell[tuple(i)] for i in s["untouched"] if spell.get(tuple(i)) is not None and spell[tuple(i)] not in respelled]
         missing = is_subseq(want, items_of(code, prefix))
         if missing is not None:
+            respelled.add(missing)
             bad(stepinfo, "spelling_changed", f"untouched item {' '.join(missing)} is no longer spelled that way in: "
                 + " | ".join(b.strip() for _, b in split_records(code, (prefix,))), spell={"item": " ".join(missing)}, code=code)
         if failed:
